@@ -197,3 +197,54 @@ Definition c17_ref_decided (c : c17case) : N :=
     match bad_jump_reachable (k_code c) (64 * length (k_code c) + 64)%nat [e_init] with
     | Some true => 2 | Some false => 1 | None => 0 end
   else 0.
+
+(* ---- C17 against the reference, per fault: every fault the concrete EVM reaches must be listed in strict mode ---- *)
+(* all (offset, is_jump_fault) at which the reference EVM faults when both outcomes of every JUMPI are explored:
+   is_jump_fault = a JUMP / taken JUMPI with enough operands and a bad destination; otherwise a stack fault.
+   None: budget exhausted (loops) or outside the oracle. *)
+Fixpoint ref_faults (code : list byte) (fuel : nat) (work : list estate) (acc : list (N * bool)) : option (list (N * bool)) :=
+  match fuel with
+  | O => match work with [] => Some acc | _ => None end
+  | S f =>
+      match work with
+      | [] => Some acc
+      | s :: rest =>
+          match byte_at code (e_pc s) with
+          | None => ref_faults code f rest acc
+          | Some b =>
+              let r1 := estep code false s in
+              if is_beyond r1 then None
+              else
+                let depth := N.of_nat (length (e_stack s)) in
+                let acc1 := if is_fault r1 then (e_pc s, (b =? 86) && (1 <=? depth)) :: acc else acc in
+                if b =? 87 then
+                  let r2 := estep code true s in
+                  if is_beyond r2 then None
+                  else
+                    let acc2 := if is_fault r2 && negb (is_fault r1) then (e_pc s, 2 <=? depth) :: acc1 else acc1 in
+                    ref_faults code f (succs r2 ++ succs r1 ++ rest) acc2
+                else ref_faults code f (succs r1 ++ rest) acc1
+          end
+      end
+  end.
+
+Definition stack_err_idx (k : N) : bool := (k =? 1) || (k =? 2).
+
+(* 39: a fault the reference reaches is missing from strict mode's error list (same offset, same class of error) *)
+Definition c17_ref_faults_code (c : c17case) : N :=
+  match k_strict c with
+  | XRun _ e1 _ _ _ _ _ =>
+      if generous (k_lim c) then
+        match ref_faults (k_code c) (64 * length (k_code c) + 64)%nat [e_init] [] with
+        | Some fs =>
+            if forallb (fun f : N * bool => existsb (fun e : N * N => (fst e =? fst f) &&
+                                                   (if snd f then jump_err_idx (snd e) else stack_err_idx (snd e))) e1) fs
+            then 0 else 39
+        | None => 0
+        end
+      else 0
+  | _ => 0
+  end.
+
+Definition check_c17r2 (c : c17case) : N :=
+  match c17_ref_faults_code c with 0 => check_c17r c | n => n end.
